@@ -8,6 +8,7 @@
   authority setter+getter.
 -/
 import MitmVerif.Basic.Bytes
+import MitmVerif.Gen.C33
 namespace MitmVerif.C33
 
 abbrev Str := List Nat
@@ -31,6 +32,14 @@ def decDigits (n : Nat) : Str := decDigitsF (n + 1) n
 /-- `int(ds)` for a string of ASCII digits -/
 def parseDec (s : Str) : Nat := s.foldl (fun a c => a * 10 + (c - 48)) 0
 
+/-- the digit ZERO of the block of Unicode decimal digits that `c` belongs to (`\d` on a `str` and `int()` accept every such digit) -/
+def digitZero? (c : Nat) : Option Nat := Gen.C33.pyDigitZeros.find? (fun z => z ≤ c && c ≤ z + 9)
+/-- `str.isdecimal()` of one character -/
+def isDecimalU (c : Nat) : Bool := (digitZero? c).isSome
+def digitValU (c : Nat) : Nat := match digitZero? c with | some z => c - z | none => 0
+/-- `int(ds)` for a string of Unicode decimal digits -/
+def parseDecU (s : Str) : Nat := s.foldl (fun a c => a * 10 + digitValU c) 0
+
 /-! ### url.hostport / unparse -/
 def defaultPort (scheme : Str) : Option Nat :=
   if scheme = S "http" then some 80 else if scheme = S "https" then some 443 else none
@@ -47,13 +56,13 @@ def unparse (scheme host : Str) (port : Nat) (path : Str) : Str :=
 
 /-! ### url.parse_authority: `^(?P<host>[^:]+|\[.+\])(?::(?P<port>\d+))?$` -/
 
-/-- `(?::(\d+))?$` against the rest of the string (`$` also matches before a final newline) -/
+/-- `(?::(\d+))?$` against the rest of the string (`$` also matches before a final newline; `\d` = any Unicode decimal digit) -/
 def tailPort (rest : Str) : Option (Option Str) :=
   if rest = [] ∨ rest = [10] then some none
   else match rest with
     | 58 :: r =>
-      let ds := r.takeWhile isDigit
-      let after := r.dropWhile isDigit
+      let ds := r.takeWhile isDecimalU
+      let after := r.dropWhile isDecimalU
       if ds ≠ [] ∧ (after = [] ∨ after = [10]) then some (some ds) else none
     | _ => none
 
@@ -84,7 +93,7 @@ def parseAuthority (valid : Str → Bool) (s : Str) : Option (Str × Option Nat)
     if !valid host then none
     else match p with
       | none => some (host, none)
-      | some ds => if parseDec ds ≤ 65535 then some (host, some (parseDec ds)) else none
+      | some ds => if parseDecU ds ≤ 65535 then some (host, some (parseDecU ds)) else none
 
 /-- `parse_authority(s, check=False)` -/
 def parseAuthorityLoose (valid : Str → Bool) (s : Str) : Str × Option Nat :=
@@ -205,6 +214,9 @@ def pyLib (Q : PyLib) : UrlLib where
   idnaRt := Q.idnaRt
   validHost := Q.validHost
   normAuth := Q.normAuth
+
+/-- the library with urlparse/urlunparse's treatment of what follows the netloc transcribed as well -/
+def withRest (Q : PyLib) : PyLib := { Q with normRest := normRestPy }
 
 /-- `url.parse(u)` for a `str`; `none` = ValueError -/
 def urlParse (P : UrlLib) (u : Str) : Option (Str × Str × Nat × Str) :=
